@@ -83,6 +83,17 @@ func (srv *Server) ListenAndServe() error {
 
 	err := eg.Wait()
 
+	// Nothing accepts or consumes any more: the transports that were accepted
+	// but not served are not left open
+	for queued := true; queued; {
+		select {
+		case t := <-srv.transportChan:
+			_ = t.Close()
+		default:
+			queued = false
+		}
+	}
+
 	if errors.Is(err, ctx.Err()) {
 		return ErrServerClosed
 	}
@@ -101,6 +112,7 @@ func acceptTransports(ctx context.Context, listener TransportListener, c chan<- 
 		}
 		select {
 		case <-ctx.Done():
+			_ = transport.Close()
 			return ctx.Err()
 		case c <- transport:
 		}
